@@ -16,13 +16,18 @@ import (
 	"reflect"
 	"runtime"
 	"sort"
+	"strconv"
 	"strings"
 	"sync"
+	"sync/atomic"
 	"testing"
+	"time"
 	"unicode"
 
 	"github.com/emersion/go-sasl"
+	"github.com/foxcpp/maddy/framework/address"
 	"github.com/foxcpp/maddy/framework/config"
+	"github.com/foxcpp/maddy/framework/dns"
 	"github.com/foxcpp/maddy/framework/log"
 	"github.com/foxcpp/maddy/framework/module"
 	"github.com/foxcpp/maddy/internal/auth"
@@ -37,11 +42,13 @@ import (
 // ---------------------------------------------------------------- scenario
 
 type c14Op struct {
-	kind    byte   // c s d p l t
+	kind    byte   // c s d p l t | B G (login <id> starts: inner = p l t; B is held at its hash verification, G when it has read its row) E (login <id> finishes) R (login <id>: let it run)
 	authzid string // p
 	u       string
 	p       string // bytes
 	scheme  string // c: b a s x
+	id      int    // B E R
+	inner   byte   // B
 }
 
 type c14Scn struct {
@@ -67,6 +74,12 @@ func (o c14Op) token() string {
 		return "l:" + vh.HexRunes(o.u) + ":" + vh.HexBytes([]byte(o.p))
 	case 't':
 		return "t:" + vh.HexRunes(o.u) + ":" + vh.HexBytes([]byte(o.p))
+	case 'B', 'G':
+		in := o
+		in.kind = o.inner
+		return string(o.kind) + strconv.Itoa(o.id) + ":" + in.token()
+	case 'E', 'R':
+		return string(o.kind) + strconv.Itoa(o.id)
 	}
 	panic("bad op kind")
 }
@@ -74,6 +87,24 @@ func (o c14Op) token() string {
 func c14ParseOp(tok string) (c14Op, error) {
 	f := strings.Split(tok, ":")
 	bad := fmt.Errorf("bad op token %q", tok)
+	if len(tok) > 1 && (tok[0] == 'B' || tok[0] == 'G' || tok[0] == 'E' || tok[0] == 'R') {
+		id, err := strconv.Atoi(f[0][1:])
+		if err != nil || id < 0 {
+			return c14Op{}, bad
+		}
+		if tok[0] == 'E' || tok[0] == 'R' {
+			if len(f) != 1 {
+				return c14Op{}, bad
+			}
+			return c14Op{kind: tok[0], id: id}, nil
+		}
+		in, err := c14ParseOp(strings.Join(f[1:], ":"))
+		if err != nil || (in.kind != 'p' && in.kind != 'l' && in.kind != 't') {
+			return c14Op{}, bad
+		}
+		in.inner, in.kind, in.id = in.kind, tok[0], id
+		return in, nil
+	}
 	if len(f) < 2 || len(f[0]) != 1 {
 		return c14Op{}, bad
 	}
@@ -193,6 +224,7 @@ type c14Sys struct {
 
 func c14NewSys(scn *c14Scn) (*c14Sys, error) {
 	sys := &c14Sys{tbl: vauth.NewMemTable()}
+	sys.tbl.AfterLookup = c14LookupGate
 	sys.a = &Auth{modName: "auth.pass_table", table: sys.tbl}
 	if scn.anorm != "nil" {
 		fn, ok := authz.NormalizeFuncs[scn.anorm]
@@ -224,23 +256,94 @@ func c14Account(name string) (string, bool) {
 	return k, err == nil
 }
 
+// ---- the monitor's own reading of "the account the supplied user name normalizes to"
+//
+// Written from the documentation of auth_map_normalize (docs/reference/global-config.md: `auto` =
+// `precis_casefold_email` for valid e-mail addresses, `precis_casefold` otherwise; `precis_casefold` = PRECIS
+// UsernameCaseMapped for the entire string; `precis_casefold_email` = UsernameCaseMapped for the local part + U-label
+// form of the domain; `precis`, `precis_email` the same with UsernameCasePreserved; `casefold` = lower case; `noop`)
+// on top of the PRECIS library — NOT through authz.NormalizeFuncs / address.PRECISFold, which are code under test.
+
+func c14RefEmail(u string, prof *precis.Profile) (string, bool) {
+	mbox, domain, err := address.Split(u)
+	if err != nil {
+		return "", false
+	}
+	mbox, err = prof.CompareKey(mbox)
+	if err != nil {
+		return "", false
+	}
+	domain, err = dns.ForLookup(domain)
+	if err != nil {
+		return "", false
+	}
+	return mbox + "@" + domain, true
+}
+
+func c14RefNorm(kind, u string) (string, bool) {
+	whole := func(prof *precis.Profile) (string, bool) {
+		v, err := prof.CompareKey(u)
+		return v, err == nil
+	}
+	switch kind {
+	case "nil", "noop":
+		return u, true
+	case "auto":
+		if address.Valid(u) {
+			return c14RefEmail(u, precis.UsernameCaseMapped)
+		}
+		return whole(precis.UsernameCaseMapped)
+	case "precis_casefold_email":
+		return c14RefEmail(u, precis.UsernameCaseMapped)
+	case "precis_casefold":
+		return whole(precis.UsernameCaseMapped)
+	case "precis_email":
+		return c14RefEmail(u, precis.UsernameCasePreserved)
+	case "precis":
+		return whole(precis.UsernameCasePreserved)
+	case "casefold":
+		return strings.ToLower(u), true
+	}
+	panic("unknown normalisation " + kind)
+}
+
+// the user-name map as configured: identity, static (exact match on the configured key), email_localpart(_optional);
+// a regexp map is evaluated by the table module itself (its semantics is that of Go's regexp package).
+func (sys *c14Sys) refMap(spec, n string) (string, bool) {
+	f := strings.Split(spec, ",")
+	switch f[0] {
+	case "nil", "identity":
+		return n, true
+	case "localpart", "localpart_opt":
+		mbox, _, err := address.Split(n)
+		if err != nil {
+			return n, f[0] == "localpart_opt"
+		}
+		return mbox, true
+	case "static":
+		v, ok := "", false
+		for _, kv := range f[1:] {
+			p := strings.SplitN(kv, "=", 2)
+			if len(p) == 2 && vh.UnhexRunes(p[0]) == n {
+				v, ok = vh.UnhexRunes(p[1]), true
+			}
+		}
+		return v, ok
+	}
+	v, ok, err := sys.amap.Lookup(context.Background(), n)
+	return v, ok && err == nil
+}
+
 // the account a user name supplied over SASL normalises to: auth_map_normalize, then auth_map ONCE,
 // then the table's key form
-func (sys *c14Sys) resolve(u string) (string, bool) {
-	n := u
-	if sys.anorm != nil {
-		v, err := sys.anorm(u)
-		if err != nil {
-			return "", false
-		}
-		n = v
+func (sys *c14Sys) resolve(scn *c14Scn, u string) (string, bool) {
+	n, ok := c14RefNorm(scn.anorm, u)
+	if !ok {
+		return "", false
 	}
-	if sys.amap != nil {
-		v, ok, err := sys.amap.Lookup(context.Background(), n)
-		if err != nil || !ok {
-			return "", false
-		}
-		n = v
+	n, ok = sys.refMap(scn.mapSpec, n)
+	if !ok {
+		return "", false
 	}
 	return c14Account(n)
 }
@@ -250,8 +353,11 @@ func (sys *c14Sys) resolve(u string) (string, bool) {
 func c14Tables(sys *c14Sys, scn *c14Scn) string {
 	set := map[string]bool{}
 	for _, o := range scn.ops {
+		if o.kind == 'E' || o.kind == 'R' {
+			continue
+		}
 		set[o.u] = true
-		if o.kind == 'p' {
+		if o.kind == 'p' || o.kind == 'B' || o.kind == 'G' {
 			set[o.authzid] = true
 		}
 	}
@@ -279,12 +385,31 @@ func c14Tables(sys *c14Sys, scn *c14Scn) string {
 			if err == nil {
 				set[n] = true
 			}
-			if sys.anorm != nil {
-				v, err := sys.anorm(k)
-				rows = append(rows, row{"a", k, enc(v, err == nil)})
+			// the library primitives the configured auth_map_normalize function is documented to be built from
+			// (the model composes them: Model/Auth.lean normalizeFunc); computed by the primitives themselves
+			prim := func(tag string, f func(string) (string, error)) {
+				v, err := f(k)
+				rows = append(rows, row{tag, k, enc(v, err == nil)})
 				if err == nil {
 					set[v] = true
 				}
+			}
+			switch scn.anorm {
+			case "auto":
+				if address.Valid(k) {
+					rows = append(rows, row{"v", k, "1"})
+					prim("f", address.PRECISFold)
+				} else {
+					rows = append(rows, row{"v", k, "0"})
+				}
+			case "precis_casefold_email":
+				prim("f", address.PRECISFold)
+			case "precis_email":
+				prim("g", address.PRECIS)
+			case "precis":
+				prim("q", precis.UsernameCasePreserved.CompareKey)
+			case "casefold":
+				prim("w", func(s string) (string, error) { return strings.ToLower(s), nil })
 			}
 			if sys.amap != nil {
 				v, ok, err := sys.amap.Lookup(context.Background(), k)
@@ -419,6 +544,100 @@ func c14SamePw(scheme, supplied, set string) bool {
 	return supplied == set
 }
 
+// ---------------------------------------------------------------- overlapping logins
+//
+// A login that is to overlap others runs in its own goroutine.  Every entry of the package's HashVerify table is
+// wrapped: a verification called from a goroutine that registered a gate reports "entered" and waits until the
+// history's controller releases it — so the controller decides, without looking at a clock, which logins are inside
+// their hash verification at the same time, and what happens to the account meanwhile.  Verifications called from
+// any other goroutine pass straight through.
+
+type c14Gate struct {
+	entered, release chan struct{}
+	eOnce, rOnce     sync.Once
+	atLookup         bool // hold the login as soon as it has read its row (else: when it enters the hash verification)
+}
+
+func (g *c14Gate) hold() {
+	g.eOnce.Do(func() { close(g.entered) })
+	<-g.release
+}
+
+// hook of the credentials table (vauth.MemTable.AfterLookup)
+func c14LookupGate() {
+	if g, ok := c14Gates.Load(c14Goid()); ok && g.(*c14Gate).atLookup {
+		g.(*c14Gate).hold()
+	}
+}
+
+func c14NewGate() *c14Gate {
+	return &c14Gate{entered: make(chan struct{}), release: make(chan struct{})}
+}
+func (g *c14Gate) open() { g.rOnce.Do(func() { close(g.release) }) }
+func (g *c14Gate) isEntered() bool {
+	select {
+	case <-g.entered:
+		return true
+	default:
+		return false
+	}
+}
+
+var (
+	c14Gates       sync.Map // goroutine id -> *c14Gate
+	c14GatesOnce   sync.Once
+	c14StallsSeen  int64
+	c14HardTimeout = 90 * time.Second
+)
+
+func c14Goid() uint64 {
+	var buf [64]byte
+	b := buf[:runtime.Stack(buf[:], false)]
+	b = b[len("goroutine "):]
+	var id uint64
+	for _, ch := range b {
+		if ch < '0' || ch > '9' {
+			break
+		}
+		id = id*10 + uint64(ch-'0')
+	}
+	return id
+}
+
+func c14InstallGates() {
+	c14GatesOnce.Do(func() {
+		for algo, f := range HashVerify {
+			f := f
+			HashVerify[algo] = func(pass, hashSalt string) error {
+				if g, ok := c14Gates.Load(c14Goid()); ok {
+					g.(*c14Gate).hold()
+				}
+				return f(pass, hashSalt)
+			}
+		}
+	})
+}
+
+// how long the controller waits for a started login to show up (at its verification, or finished) before it goes
+// on with the schedule.  The unchanged code always shows up; the bound only matters for code that makes a login
+// wait for another one, and it shrinks once that has been seen a few times.
+func c14StallBound() time.Duration {
+	if atomic.LoadInt64(&c14StallsSeen) >= 3 {
+		return 150 * time.Millisecond
+	}
+	return 2 * time.Second
+}
+
+type c14Pending struct {
+	id, opIdx, obsIdx int
+	op                c14Op
+	gate              *c14Gate
+	done              chan struct{}
+	res               c14Auth // p l
+	derr              error   // t
+	start             int     // number of management operations completed when the login was started
+}
+
 type c14Viol struct{ sig, detail string }
 
 type c14Result struct {
@@ -441,7 +660,189 @@ func c14RunScn(scn *c14Scn) (res c14Result) {
 
 	ref := map[string]c14Ref{} // account -> last password set
 	account := c14Account
-	resolve := sys.resolve
+	resolve := func(u string) (string, bool) { return sys.resolve(scn, u) }
+	// states[j] = the reference map after j management operations (what an overlapping login may have seen)
+	states := []map[string]c14Ref{{}}
+	pushState := func() {
+		cp := make(map[string]c14Ref, len(ref))
+		for k, v := range ref {
+			cp[k] = v
+		}
+		states = append(states, cp)
+	}
+	var obs []string
+	nAuthOK := 0
+	var pending []*c14Pending
+	releaseAll := func() {
+		for _, pl := range pending {
+			pl.gate.open()
+		}
+	}
+	// management while logins are in flight: never let the controller itself get stuck behind a login
+	mgmt := func(f func() error) error {
+		if len(pending) == 0 {
+			return f()
+		}
+		ch := make(chan error, 1)
+		go func() { ch <- f() }()
+		select {
+		case err := <-ch:
+			return err
+		case <-time.After(c14StallBound()):
+			atomic.AddInt64(&c14StallsSeen, 1)
+			stat("conc.management-waits-for-login")
+			releaseAll()
+			return <-ch
+		}
+	}
+	begin := func(i int, o c14Op, id int) *c14Pending {
+		pl := &c14Pending{id: id, opIdx: i, obsIdx: -1, op: o, gate: c14NewGate(), done: make(chan struct{}), start: len(states) - 1}
+		pl.gate.atLookup = o.kind == 'G'
+		lk0 := sys.tbl.Lookups()
+		go func() {
+			gid := c14Goid()
+			c14Gates.Store(gid, pl.gate)
+			defer close(pl.done)
+			defer c14Gates.Delete(gid)
+			if o.inner == 't' {
+				pl.derr = sys.a.AuthPlain(o.u, o.p)
+				return
+			}
+			mech := sasl.Plain
+			if o.inner == 'l' {
+				mech = sasl.Login
+			}
+			pl.res = c14Exchange(sys.s, mech, o.authzid, o.u, o.p, i%2 == 0)
+		}()
+		// wait until the login is inside its verification (or over); a login that has read its row and then neither
+		// verifies nor returns is waiting for something else — go on, the schedule will show for what
+		t0 := time.Now()
+		var seen time.Time
+		for parked := false; !parked; {
+			select {
+			case <-pl.gate.entered:
+				stat("conc.started.held." + string(o.kind))
+				parked = true
+			case <-pl.done:
+				stat("conc.started.returned-at-once")
+				parked = true
+			case <-time.After(200 * time.Microsecond):
+				if seen.IsZero() && sys.tbl.Lookups() != lk0 {
+					seen = time.Now()
+				}
+				if !seen.IsZero() && time.Since(seen) > 25*time.Millisecond {
+					stat("conc.started.row-read-then-waiting")
+					parked = true
+				} else if time.Since(t0) > c14StallBound() {
+					atomic.AddInt64(&c14StallsSeen, 1)
+					stat("conc.started.waiting")
+					parked = true
+				}
+			}
+		}
+		pending = append(pending, pl)
+		return pl
+	}
+	// the property for a login whose interval covered the table states start..end: it may succeed only if the supplied
+	// password was the current one of the account at SOME of these states, and may fail only if at some state it was not
+	settle := func(pl *c14Pending) string {
+		for j, q := range pending {
+			if q == pl {
+				pending = append(pending[:j:j], pending[j+1:]...)
+				break
+			}
+		}
+		o, i, end := pl.op, pl.opIdx, len(states)-1
+		var k string
+		var okName bool
+		if o.inner == 't' {
+			k, okName = account(o.u)
+		} else {
+			k, okName = resolve(o.u)
+		}
+		anyRight, anyWrong := false, false
+		for j := pl.start; j <= end; j++ {
+			rf, exists := states[j][k]
+			if okName && exists && c14SamePw(rf.scheme, o.p, rf.pw) {
+				anyRight = true
+			} else {
+				anyWrong = true
+			}
+		}
+		stat(fmt.Sprintf("conc.window.states.%d", end-pl.start+1))
+		switch {
+		case anyRight && anyWrong:
+			stat("conc.password.current-during-part-of-the-login")
+		case anyRight:
+			stat("conc.password.current")
+		default:
+			stat("conc.password.not-current")
+		}
+		what := fmt.Sprintf("op %d (login %d, overlapping %d other logins and %d management operations)", i, pl.id, len(pending), end-pl.start)
+		if o.inner == 't' {
+			ok := pl.derr == nil
+			stat(fmt.Sprintf("conc.direct.%v", ok))
+			if ok && !anyRight {
+				viol("C14/auth-accepts-wrong-password", "%s: pass_table.AuthPlain(%q, %x) succeeded; the password was not the current one of account %q at any point of the login", what, o.u, o.p, k)
+			}
+			if !ok && !anyWrong {
+				viol("C14/auth-refuses-current-password", "%s: pass_table.AuthPlain(%q, %x) failed (%v) although the password was the current one of account %q throughout the login", what, o.u, o.p, pl.derr, k)
+			}
+			if ok {
+				nAuthOK++
+				return "ok"
+			}
+			return "fail"
+		}
+		r := pl.res
+		mech := sasl.Plain
+		if o.inner == 'l' {
+			mech = sasl.Login
+		}
+		stat("conc." + mech + "." + r.res)
+		authzOK := o.inner == 'l' || o.authzid == "" || o.authzid == o.u
+		mechOK := o.inner == 'p' || scn.login
+		if r.res == "ok" {
+			nAuthOK++
+			if !authzOK {
+				viol("C14/authzid-mismatch-accepted", "%s: PLAIN authzid %q with authcid %q succeeded", what, o.authzid, o.u)
+			} else if !anyRight || !mechOK {
+				viol("C14/auth-accepts-wrong-password", "%s: %s %q/%x succeeded; the password was not the current one of account %q (resolved=%v) at any point of the login", what, mech, o.u, o.p, k, okName)
+			}
+			if r.cbCount != 1 || r.data.Password != o.p || r.identity != o.u {
+				viol("C14/success-callback", "%s: callback ran %d times, identity %q, password passed on equal=%v", what, r.cbCount, r.identity, r.data.Password == o.p)
+			}
+		} else {
+			if authzOK && mechOK && !anyWrong {
+				viol("C14/auth-refuses-current-password", "%s: %s %q/%x gave %s although the password was the current one of account %q throughout the login", what, mech, o.u, o.p, r.res, k)
+			}
+			if r.cbCount != 0 {
+				viol("C14/success-callback", "%s: callback ran on a failed exchange", what)
+			}
+			if o.inner == 'l' && !scn.login && r.res != "unsup" {
+				viol("C14/login-disabled", "%s: LOGIN is disabled but the exchange gave %s", what, r.res)
+			}
+		}
+		return r.obs()
+	}
+	// let login pl finish and report its verdict; false: it did not return (it waits for another login)
+	finish := func(pl *c14Pending, bound time.Duration) bool {
+		pl.gate.open()
+		select {
+		case <-pl.done:
+			return true
+		case <-time.After(bound):
+			return false
+		}
+	}
+	findPending := func(id int) *c14Pending {
+		for _, pl := range pending {
+			if pl.id == id {
+				return pl
+			}
+		}
+		return nil
+	}
 	checkKeys := func(i int) {
 		keys, _ := sys.tbl.Keys()
 		var want []string
@@ -459,12 +860,55 @@ func c14RunScn(scn *c14Scn) (res c14Result) {
 		}
 	}
 
-	var obs []string
-	nAuthOK := 0
 	for i, o := range scn.ops {
+		if len(pending) > 0 && (o.kind == 'p' || o.kind == 'l' || o.kind == 't') {
+			// an ordinary login while others are in flight is a login that starts and finishes without anything in between
+			o.inner, o.kind, o.id = o.kind, 'X', -1-i
+		}
 		switch o.kind {
+		case 'B', 'G', 'X':
+			if o.kind != 'X' && findPending(o.id) != nil {
+				obs = append(obs, "bad-schedule")
+				continue
+			}
+			begin(i, o, o.id)
+			stat("conc.login." + string(o.inner))
+			stat(fmt.Sprintf("conc.in-flight.%d", len(pending)))
+			if o.kind != 'X' {
+				obs = append(obs, "-")
+				continue
+			}
+			fallthrough
+		case 'E':
+			pl := findPending(o.id)
+			if pl == nil {
+				obs = append(obs, "no-login")
+				continue
+			}
+			bound := c14HardTimeout
+			if !pl.gate.isEntered() {
+				select {
+				case <-pl.done:
+				default:
+					bound = 50 * time.Millisecond // not at its verification: it may be waiting for a login that is released later
+				}
+			}
+			if finish(pl, bound) {
+				obs = append(obs, settle(pl))
+			} else {
+				stat("conc.finish.waits-for-another-login")
+				pl.obsIdx = len(obs)
+				obs = append(obs, "?")
+			}
+		case 'R':
+			if pl := findPending(o.id); pl != nil {
+				pl.gate.open()
+			}
+			obs = append(obs, "-")
 		case 'c':
-			err := sys.a.CreateUserHash(o.u, o.p, c14Schemes[o.scheme], HashOpts{BcryptCost: 4, Argon2Time: 1, Argon2Memory: 8, Argon2Threads: 1})
+			err := mgmt(func() error {
+				return sys.a.CreateUserHash(o.u, o.p, c14Schemes[o.scheme], HashOpts{BcryptCost: 4, Argon2Time: 1, Argon2Memory: 8, Argon2Threads: 1})
+			})
 			r := c14Mgmt(err)
 			obs = append(obs, r)
 			stat("create." + r)
@@ -478,9 +922,10 @@ func c14RunScn(scn *c14Scn) (res c14Result) {
 			if want != (err == nil) {
 				viol("C14/mgmt-result", "op %d create %q: succeeded=%v, the history implies %v (err: %v)", i, o.u, err == nil, want, err)
 			}
+			pushState()
 			checkKeys(i)
 		case 's':
-			err := sys.a.SetUserPassword(o.u, o.p)
+			err := mgmt(func() error { return sys.a.SetUserPassword(o.u, o.p) })
 			r := c14Mgmt(err)
 			obs = append(obs, r)
 			stat("set." + r)
@@ -495,9 +940,10 @@ func c14RunScn(scn *c14Scn) (res c14Result) {
 			if want != (err == nil) {
 				viol("C14/mgmt-result", "op %d set-password %q: succeeded=%v, the history implies %v (err: %v)", i, o.u, err == nil, want, err)
 			}
+			pushState()
 			checkKeys(i)
 		case 'd':
-			err := sys.a.DeleteUser(o.u)
+			err := mgmt(func() error { return sys.a.DeleteUser(o.u) })
 			r := c14Mgmt(err)
 			obs = append(obs, r)
 			stat("delete." + r)
@@ -511,6 +957,7 @@ func c14RunScn(scn *c14Scn) (res c14Result) {
 			if ok != (err == nil) {
 				viol("C14/mgmt-result", "op %d delete %q: succeeded=%v, the history implies %v (err: %v)", i, o.u, err == nil, ok, err)
 			}
+			pushState()
 			checkKeys(i)
 		case 't':
 			before := sys.tbl.Snapshot()
@@ -595,6 +1042,23 @@ func c14RunScn(scn *c14Scn) (res c14Result) {
 			}
 		}
 	}
+	// logins still in flight at the end of the history (finished out of order behind another login, or never finished by the schedule)
+	releaseAll()
+	for len(pending) > 0 {
+		pl := pending[0]
+		if !finish(pl, c14HardTimeout) {
+			viol("C14/login-never-returns", "op %d (login %d) did not return within %v after every verification was released", pl.opIdx, pl.id, c14HardTimeout)
+			pending = pending[1:]
+			if pl.obsIdx >= 0 {
+				obs[pl.obsIdx] = "hang"
+			}
+			continue
+		}
+		v := settle(pl)
+		if pl.obsIdx >= 0 {
+			obs[pl.obsIdx] = v
+		}
+	}
 	res.obs = strings.Join(obs, " ")
 	stat(fmt.Sprintf("hist.len.%02d", len(scn.ops)))
 	stat("cfg.anorm." + scn.anorm)
@@ -608,7 +1072,22 @@ func c14RunScn(scn *c14Scn) (res c14Result) {
 
 // ---------------------------------------------------------------- generators
 
-var c14Bases = []string{"alice", "bob", "rené", "ünï", "user@example.org", "дима", "straße", "ǆo", "ali.ce", "o'neil"}
+var c14Bases = []string{"alice", "bob", "rené", "ünï", "user@example.org", "дима", "straße", "ǆo", "ali.ce", "o'neil",
+	"strasse", "οδος", "σίσυφος", "maß", "ırmak", "ǰan", "ΐota", "postmaster", "straße@example.org",
+	"user@", "a@b@example.org", "bob@exämple.org", "maß@straße.example"} // with '@' but not (or not obviously) an e-mail address: the `auto` branch
+
+// pairs of DIFFERENT accounts (RFC 8265 UsernameCaseMapped lower-cases, it does not case-fold, and it keeps the
+// final sigma, the dotless i, ...) that full case folding, a compatibility mapping or a locale-specific lower-casing
+// would merge; some members are spellings PRECIS refuses (ŉ, ligatures) — the other member is still an account
+var c14FoldPairs = [][2]string{
+	{"straße", "strasse"}, {"maß", "mass"}, {"ẞtein", "sstein"}, {"οδος", "οδοσ"}, {"σίσυφος", "σίσυφοσ"},
+	{"ŉet", "ʼnet"}, {"ǰan", "ǰan"}, {"ırmak", "irmak"}, {"kapı", "kapi"}, {"ﬂuß", "fluß"}, {"ﬁsh", "fish"},
+	{"ΐota", "ΐota"}, {"ǆo", "džo"}, {"straße@example.org", "strasse@example.org"}, {"ſam", "sam"}, {"eﬃe", "effie"},
+}
+
+func c14Foldable(s string) bool {
+	return strings.ContainsAny(s, "ßẞςŉǰıİΐΰﬁﬂﬃﬀſǆǅǄ")
+}
 var c14BadNames = []string{"", "a b", "Ⅳ", "ﬁsh", "\u0001x", "x­y", "ſam", "a‍b"}
 var c14Targets = []string{"acct1", "acct2", "shared", "alice", "bob"}
 
@@ -628,7 +1107,12 @@ func c14Variant(r *vh.Rng, s string) (string, string) {
 	if s == "" {
 		return s, "exact"
 	}
-	switch r.Intn(8) {
+	switch r.Intn(9) {
+	case 8:
+		if strings.Contains(s, "ß") && r.Bool() {
+			return strings.ReplaceAll(s, "ß", "ẞ"), "capital-sharp-s"
+		}
+		return strings.ToUpper(norm.NFC.String(s)), "upper-nfc"
 	case 0, 1:
 		return s, "exact"
 	case 2:
@@ -785,6 +1269,14 @@ func c14Gen(r *vh.Rng, maxOps int) *c14Scn {
 	}
 	nb := 1 + r.Intn(3)
 	var bases []string
+	var pair []string
+	if r.Chance(30) { // both members of a pair that a wider folding would merge
+		pr := c14FoldPairs[r.Intn(len(c14FoldPairs))]
+		bases = append(bases, pr[0], pr[1])
+		pair = pr[:]
+		nb = r.Intn(2)
+		scn.genStats = append(scn.genStats, "names.fold-pair")
+	}
 	for i := 0; i < nb; i++ {
 		bases = append(bases, c14Bases[r.Intn(len(c14Bases))])
 	}
@@ -810,12 +1302,15 @@ func c14Gen(r *vh.Rng, maxOps int) *c14Scn {
 			v, cls := c14Variant(r, b)
 			spellings = append(spellings, v)
 			scn.genStats = append(scn.genStats, "name."+cls)
+			if c14Foldable(v) {
+				scn.genStats = append(scn.genStats, "name.with-letter-changed-by-case-folding")
+			}
 		}
 	}
 	reach := map[string][]string{}
 	var accts []string
 	for _, sp := range spellings {
-		if k, ok := sys.resolve(sp); ok {
+		if k, ok := sys.resolve(scn, sp); ok {
 			if _, seen := reach[k]; !seen {
 				accts = append(accts, k)
 			}
@@ -854,6 +1349,19 @@ func c14Gen(r *vh.Rng, maxOps int) *c14Scn {
 	}
 	// the generator's own bookkeeping, only used to aim authentications at existing accounts
 	cur := map[string]string{}
+	prev := map[string]string{} // the password an account had before its last change / deletion
+	setCur := func(k, p string) {
+		if q, ok := cur[k]; ok && q != p {
+			prev[k] = q
+		}
+		cur[k] = p
+	}
+	delCur := func(k string) {
+		if q, ok := cur[k]; ok {
+			prev[k] = q
+		}
+		delete(cur, k)
+	}
 	curKeys := func() []string {
 		var ks []string
 		for k := range cur {
@@ -872,14 +1380,20 @@ func c14Gen(r *vh.Rng, maxOps int) *c14Scn {
 			u := reach[k][r.Intn(len(reach[k]))]
 			p := cur[k]
 			switch {
-			case x < 50 || strings.Contains(p, "\x00"):
+			case x < 46 || strings.Contains(p, "\x00"):
 				if strings.Contains(p, "\x00") {
 					p = pw(false)
 				}
-			case x < 58 && len(p) >= 71:
+			case x < 53 && len(p) >= 71:
 				p += "tail" // bcrypt: only 72 bytes count
-			case x < 62:
+			case x < 57:
 				p += "x"
+			case x < 68 && prev[k] != "" && !strings.Contains(prev[k], "\x00"): // the password the account had before
+				p = prev[k]
+			case x < 73 && len(ks) > 1: // the current password of ANOTHER account
+				if q := cur[ks[r.Intn(len(ks))]]; !strings.Contains(q, "\x00") {
+					p = q
+				}
 			default:
 				p = pw(false)
 			}
@@ -891,9 +1405,136 @@ func c14Gen(r *vh.Rng, maxOps int) *c14Scn {
 		}
 		return anyName(), pw(false)
 	}
-	n := 1 + r.Intn(maxOps)
 	sets := 0
+	// overlapping logins: 2-4 logins, mostly for one account, with the current / the previous / another account's / a wrong
+	// password, started so that at least two are in flight together, possibly with a password change, a deletion or a
+	// re-creation of the account in between, finished in any order
+	episode := func() {
+		ks := curKeys()
+		k := ks[r.Intn(len(ks))]
+		old, hasOld := "", false
+		nl := 2 + r.Intn(3)
+		started, nextID := 0, 1+r.Intn(3)
+		var inFlight []int
+		midDone := !r.Chance(50)
+		yielded := !r.Chance(25)
+		mk := func(id int) c14Op {
+			kk := k
+			if len(ks) > 1 && r.Chance(20) {
+				kk = ks[r.Intn(len(ks))]
+			}
+			o := c14Op{kind: 'B', id: id, inner: 'p'}
+			if r.Chance(30) {
+				o.kind = 'G'
+			}
+			switch y := r.Intn(100); {
+			case y < 40 && scn.login, y < 8:
+				o.inner = 'l'
+			case y < 55:
+				o.inner = 't'
+			}
+			if o.inner == 't' {
+				o.u, _ = c14Variant(r, kk)
+			} else {
+				o.u = reach[kk][r.Intn(len(reach[kk]))]
+				if r.Chance(12) && o.inner == 'p' {
+					o.authzid = o.u
+				}
+			}
+			right, exists := cur[kk]
+			switch y := r.Intn(100); {
+			case y < 40 && exists:
+				o.p = right
+			case y < 58 && hasOld && kk == k:
+				o.p = old
+			case y < 70 && exists:
+				o.p = right + "x"
+			case y < 82 && len(ks) > 1:
+				o.p = cur[ks[r.Intn(len(ks))]]
+			default:
+				o.p = pw(false)
+			}
+			if strings.Contains(o.p, "\x00") && o.inner != 't' {
+				o.p = pw(false)
+			}
+			return o
+		}
+		for started < nl || len(inFlight) > 0 {
+			switch {
+			case started < nl && (started < 2 || len(inFlight) == 0 || r.Chance(40)):
+				scn.ops = append(scn.ops, mk(nextID))
+				inFlight = append(inFlight, nextID)
+				nextID++
+				started++
+			case !midDone && r.Chance(40):
+				midDone = true
+				if p, ok := cur[k]; ok {
+					old, hasOld = p, true
+				}
+				name, _ := c14Variant(r, k)
+				switch y := r.Intn(100); {
+				case y < 50 && sets < 4:
+					sets++
+					o := c14Op{kind: 's', u: name, p: pw(false)}
+					scn.ops = append(scn.ops, o)
+					if kk, ok := c14Account(o.u); ok && len(o.p) <= 72 {
+						setCur(kk, o.p)
+					}
+				case y < 80:
+					scn.ops = append(scn.ops, c14Op{kind: 'd', u: name})
+					if kk, ok := c14Account(name); ok {
+						delCur(kk)
+					}
+					if r.Chance(50) { // and created again with another password
+						o := c14Op{kind: 'c', u: name, p: pw(false), scheme: []string{"b", "a", "s"}[r.Intn(3)]}
+						scn.ops = append(scn.ops, o)
+						if kk, ok := c14Account(o.u); ok && !(o.scheme == "b" && len(o.p) > 72) {
+							setCur(kk, o.p)
+						}
+					}
+				default: // management of another account
+					o := c14Op{kind: 'd', u: mgmtName()}
+					scn.ops = append(scn.ops, o)
+					if kk, ok := c14Account(o.u); ok {
+						delCur(kk)
+					}
+				}
+			default:
+				if !yielded && len(inFlight) > 1 {
+					yielded = true
+					for _, id := range inFlight {
+						scn.ops = append(scn.ops, c14Op{kind: 'R', id: id})
+					}
+				}
+				j := r.Intn(len(inFlight))
+				scn.ops = append(scn.ops, c14Op{kind: 'E', id: inFlight[j]})
+				inFlight = append(inFlight[:j], inFlight[j+1:]...)
+			}
+		}
+		scn.genStats = append(scn.genStats, "hist.overlapping-logins")
+	}
+	n := 1 + r.Intn(maxOps)
+	episodes := 0
+	if pair != nil && r.Chance(75) { // both accounts of the pair exist, with different passwords
+		for j, name := range pair {
+			o := c14Op{kind: 'c', u: name, p: pws[j%len(pws)], scheme: []string{"b", "a", "s"}[r.Intn(3)]}
+			if j == 1 && o.p == scn.ops[0].p {
+				o.p += "2"
+			}
+			scn.ops = append(scn.ops, o)
+			if k, ok := c14Account(o.u); ok && !(o.scheme == "b" && len(o.p) > 72) {
+				if _, exists := cur[k]; !exists {
+					setCur(k, o.p)
+				}
+			}
+		}
+	}
 	for i := 0; i < n; i++ {
+		if i > 0 && episodes < 2 && r.Chance(9) && len(curKeys()) > 0 {
+			episodes++
+			episode()
+			continue
+		}
 		x := r.Intn(100)
 		if i == 0 && x >= 40 {
 			x = r.Intn(40) // histories mostly start by creating something
@@ -915,7 +1556,7 @@ func c14Gen(r *vh.Rng, maxOps int) *c14Scn {
 			scn.ops = append(scn.ops, o)
 			if k, ok := c14Account(o.u); ok && sch != "x" && !(sch == "b" && len(o.p) > 72) {
 				if _, exists := cur[k]; !exists {
-					cur[k] = o.p
+					setCur(k, o.p)
 				}
 			}
 		case x < 36 && sets < 4: // SetUserPassword hashes with bcrypt.DefaultCost: bounded per history
@@ -923,13 +1564,23 @@ func c14Gen(r *vh.Rng, maxOps int) *c14Scn {
 			o := c14Op{kind: 's', u: mgmtName(), p: pw(true)}
 			scn.ops = append(scn.ops, o)
 			if k, ok := c14Account(o.u); ok && len(o.p) <= 72 {
-				cur[k] = o.p
+				setCur(k, o.p)
 			}
 		case x < 44:
 			o := c14Op{kind: 'd', u: mgmtName()}
 			scn.ops = append(scn.ops, o)
 			if k, ok := c14Account(o.u); ok {
-				delete(cur, k)
+				_, existed := cur[k]
+				delCur(k)
+				if existed && r.Chance(45) { // the account is created again, with another password
+					c := c14Op{kind: 'c', p: pw(false), scheme: []string{"b", "a", "s"}[r.Intn(3)]}
+					c.u, _ = c14Variant(r, k)
+					scn.ops = append(scn.ops, c)
+					if kk, ok := c14Account(c.u); ok && !(c.scheme == "b" && len(c.p) > 72) {
+						setCur(kk, c.p)
+					}
+					scn.genStats = append(scn.genStats, "hist.account-recreated")
+				}
 			}
 		case x < 69:
 			u, p := authCreds()
@@ -961,6 +1612,8 @@ func c14Gen(r *vh.Rng, maxOps int) *c14Scn {
 					if r.Chance(25) {
 						o.p += "\x00" + o.p // bcrypt: NUL-terminated and cyclically expanded key
 					}
+				} else if prev[k] != "" && r.Chance(50) {
+					o.p = prev[k]
 				}
 			} else {
 				o.u = mgmtName()
@@ -986,7 +1639,10 @@ func c14Emit(out *vh.Out, scn *c14Scn, res c14Result) {
 	}
 	for _, o := range scn.ops {
 		out.Stat("op." + string(o.kind))
-		if o.kind != 'd' {
+		if o.kind == 'B' || o.kind == 'G' {
+			out.Stat("op." + string(o.kind) + "." + string(o.inner))
+		}
+		if o.kind != 'd' && o.kind != 'E' && o.kind != 'R' {
 			out.Stat("pw." + c14PwClass(o.p))
 		}
 	}
@@ -996,6 +1652,7 @@ func TestVerifC14Hist(t *testing.T) {
 	out := vh.Open("c14_hist")
 	defer out.Close()
 	addSHA256() // the third scheme of hash.go is only registered by tests
+	c14InstallGates()
 
 	if rep := vh.Replay(); rep != nil {
 		for _, l := range rep {
